@@ -551,7 +551,7 @@ func (fc *fctx) genStmts(n int) ([]*Stmt, bool) {
 				delete(fc.prot, x)
 			}
 			out = append(out, &Stmt{Op: "for", E: e, V: v, B1: body})
-		case c < 89 && fc.nested > 0 && !noJump: // early exit inside a nested block
+		case c < 88 && fc.nested > 0 && !noJump: // early exit inside a nested block
 			if fc.inLoop && g.r.Bool() {
 				out = append(out, &Stmt{Op: lib.Pick(g.r, []string{"break", "continue"})})
 			} else if fc.ret.K == kVoid {
@@ -560,10 +560,10 @@ func (fc *fctx) genStmts(n int) ([]*Stmt, bool) {
 				out = append(out, &Stmt{Op: "return", E: fc.genSub(fc.ret, 2)})
 			}
 			return out, true
-		case c < 91 && fc.nested > 0 && !noJump:
+		case c < 89 && fc.nested > 0 && !noJump:
 			out = append(out, &Stmt{Op: "expr", E: &Expr{Op: "panic", Typ: tNever}})
 			return out, true
-		case c < 94 && fc.nested == 0: // resource life cycle at the top level of the function body
+		case c < 96 && fc.nested == 0: // resource life cycle at the top level of the function body
 			out = append(out, fc.genResourceStmt()...)
 		default: // call statement / variable initialised by a call
 			for j := fc.fi + 1; j < len(g.p.Funs); j++ {
@@ -729,7 +729,7 @@ func genProgram(r *lib.Rng) *Prog {
 	// composites: fields of earlier structs allowed (no recursion)
 	nd := 1 + r.Intn(3)
 	for i := 0; i < nd; i++ {
-		res := i > 0 && r.Chance(1, 3)
+		res := i > 0 && r.Chance(1, 2)
 		nf := 1 + r.Intn(3)
 		d := &Decl{Res: res}
 		for j := 0; j < nf; j++ {
